@@ -370,6 +370,8 @@ class State:
             ity = {'AtomicU64': 'u64', 'AtomicUsize': 'usize', 'AtomicU32': 'u32', 'AtomicBool': 'bool',
                    'AtomicI64': 'i64', 'AtomicU8': 'u8'}[n]
             return Struct(t.raw, {'data': Cell(ity, lazy=path + '.atomic')}, lazy=None)
+        if n == 'Atomic' and t.args:
+            return Struct(t.raw, {'data': Cell(t.args[0].raw, lazy=path + '.atomic')}, lazy=None)
         vs = self.ex.prog.variants(n)
         if vs is not None and (n in ('Option', 'Result') or n in self.ex.prog.enums):
             d = z3.BitVec(path + '.disc', 64)
@@ -495,7 +497,7 @@ class Executor:
         self.const_cache = {}
         self.stats = {'paths': 0, 'forks': 0, 'steps': 0, 'infeasible': 0}
         self.deadline = time.time() + timeout_s if timeout_s else None
-        from . import models, models_iter, models_map
+        from . import models, models_iter, models_map, models_std
         self.all_orders = False
         self.models = models.REGISTRY
         self.model_pats = models.PATTERNS
@@ -1065,6 +1067,9 @@ class Executor:
         if k == 'return':
             return self.do_return(st, fr.locals.get(0, UNIT))
         if k == 'drop':
+            if not t[1].proj and t[1].local in fr.locals:
+                from .models_std import release
+                release(st, fr.locals[t[1].local])
             return self.goto(st, fr, t[2])
         if k == 'assert':
             c = self.operand(st, fr, t[1])
